@@ -75,6 +75,18 @@ def stepD (d : DSt) : List String → DSt × String
       let r := step d.cfg d.st pfx c
       ({ d with st := r.1 }, encB r.2 ++ "\t" ++ encSt r.1)
     | _, _ => (d, "bad-op")
+  | ["order", uo, co] =>
+    -- id=cap+cap;…   and   name=cap+cap;…
+    let decU : Option (List (Nat × List Str)) :=
+      if uo = "-" then some [] else
+      (uo.splitOn ";").mapM fun item =>
+        match item.splitOn "=" with
+        | [k, v] => do pure ((← decN k), (← decL "+" v))
+        | _ => none
+    match decU, decEntries (decL "+") co with
+    | some uo, some co =>
+      ({ d with st := d.st.fileOrder uo co }, if d.st.fileOrderOk uo co then "ok" else "order-mismatch")
+    | _, _ => (d, "bad-op")
   | ["owners"] => (d, if (owners d.st).isEmpty then "-" else ",".intercalate ((owners d.st).map encN))
   | _ => (d, "bad-op")
 
